@@ -69,19 +69,13 @@ def main():
     ck.functions |= {'solver::solve_expression', 'solver::match_all', 'solver::match_of', 'solver::Cache::find', 'solver::Passthrough::find',
                      'document::<&dyn Object as Document>::find', 'value::Object::find'}
     tpl = templates.select(ck.tier, ck.seed, fams=None)
-    tpl = [t for t in tpl if t[0] not in ('nonpredicate',)]
+    tpl = [t for t in tpl if t[0] not in ('nonpredicate', 'undefined-ident')]
     if quick:
         import random
         rnd = random.Random(ck.seed + 16)
-        by = {}
-        for t in tpl:
-            by.setdefault(t[0], []).append(t)
         quota = {'single': 3, 'regex': 2, 'number': 2, 'scalar': 2, 'list': 4, 'list-all': 3, 'list-of': 4, 'list-mixed': 3,
                  'quant-short': 4, 'quant-ident': 5, 'cast-cond': 4, 'regex-rewrite': 2, 'modifier': 5, 'condition': 5}
-        tpl = []
-        for fam, ts in by.items():
-            n = quota.get(fam)
-            tpl += ts if n is None or n >= len(ts) else rnd.sample(ts, n)
+        tpl = templates.thin(tpl, quota, rnd)
     ck.extra['templates'] = len(tpl)
     ck.run_units([(name, templates.render(rule)) for _, name, rule in tpl], run_unit)
     ck.finish('every Document::find / Object::get that reaches the user document on any feasible path is for a key written '
